@@ -192,6 +192,26 @@ def _keys_axioms(st, kt, dom, keys, pos, n):
                                                      z3.Select(keys, z3.Select(pos, k)) == k)), name='kk'))
 
 
+def _finite_keyed(st, kt, name):
+    """finite-scope mode: a symbolic dict / set has at most K keys; its domain is *defined* from the key
+    enumeration, so no quantified axiom over the (possibly infinite) key sort is needed"""
+    K = FINITE['K']
+    ks = sort_of(kt)
+    keys = fresh_const(name + '_keys', z3.ArraySort(z3.IntSort(), ks))
+    n = fresh_const(name + '_n', z3.IntSort())
+    st.assume(z3.And(n >= 0, n <= K))
+    for i in range(K):
+        for j in range(i + 1, K):
+            st.assume(z3.Implies(z3.IntVal(j) < n, z3.Select(keys, i) != z3.Select(keys, j)))
+    k = fresh_const('fk', ks)
+    dom = z3.Lambda([k], z3.Or([z3.And(z3.IntVal(i) < n, z3.Select(keys, i) == k) for i in range(K)]))
+    posv = z3.IntVal(0)
+    for i in range(K - 1, -1, -1):
+        posv = z3.If(z3.Select(keys, i) == k, z3.IntVal(i), posv)
+    pos = z3.Lambda([k], posv)
+    return dom, keys, pos, n
+
+
 def new_dict(st, t, name='d', empty=False, parent=None, parts=None):
     ks, vs = sort_of(t.args[0]), sort_of(t.args[1])
     if parts is not None:
@@ -202,6 +222,9 @@ def new_dict(st, t, name='d', empty=False, parent=None, parts=None):
         keys = fresh_const(name + '_keys', z3.ArraySort(z3.IntSort(), ks))
         pos = fresh_const(name + '_pos', z3.ArraySort(ks, z3.IntSort()))
         n = z3.IntVal(0)
+    elif FINITE['K'] is not None and finite_universe_of(t.args[0]) is None:
+        dom, keys, pos, n = _finite_keyed(st, t.args[0], name)
+        val = fresh_const(name + '_val', z3.ArraySort(ks, vs))
     else:
         dom = fresh_const(name + '_dom', z3.ArraySort(ks, z3.BoolSort()))
         val = fresh_const(name + '_val', z3.ArraySort(ks, vs))
@@ -221,6 +244,8 @@ def new_set(st, t, name='s', empty=False, parent=None, parts=None):
         keys = fresh_const(name + '_keys', z3.ArraySort(z3.IntSort(), es))
         pos = fresh_const(name + '_pos', z3.ArraySort(es, z3.IntSort()))
         n = z3.IntVal(0)
+    elif FINITE['K'] is not None and finite_universe_of(t.args[0]) is None:
+        dom, keys, pos, n = _finite_keyed(st, t.args[0], name)
     else:
         dom = fresh_const(name + '_dom', z3.ArraySort(es, z3.BoolSort()))
         keys = fresh_const(name + '_keys', z3.ArraySort(z3.IntSort(), es))
@@ -316,6 +341,8 @@ def pack(st, v, t):
         if isinstance(c, ObjC):
             raise OutOfSubset('object stored inside a container')
     if isinstance(v, NoneV):
+        if k == 'none':
+            return z3.Const('NoneValue', sort_of(t))
         raise TypeError('None into %r' % (t,))
     raise TypeError('cannot pack %r as %r' % (v, t))
 
@@ -326,6 +353,8 @@ def unpack(st, e, t, parent=None):
     k = t.kind
     if k in ('int', 'bool', 'real', 'str', 'sort', 'map', 'obj'):
         return SV(t, e)
+    if k == 'none':
+        return NONEV
     if k == 'tuple':
         S = sort_of(t)
         return TupV([unpack(st, S.accessor(0, i)(e), a) for i, a in enumerate(t.args)], t.name)
